@@ -5,6 +5,8 @@
 package scaleoffset
 
 import (
+	"math"
+
 	"github.com/muktihari/fit/profile/basetype"
 	"github.com/muktihari/fit/proto"
 )
@@ -143,9 +145,15 @@ func Discard(value, scale, offset float64) float64 {
 // DiscardSlice discards applied scale and offset on slice values.
 func DiscardSlice[T Numeric](values []float64, scale, offset float64) []T {
 	vals := make([]T, len(values))
+	half := 0.5
+	isInteger := T(half) == 0
 	if scale == 1 && offset == 0 {
 		for i := range values {
 			vals[i] = T(values[i])
+		}
+	} else if isInteger {
+		for i := range values {
+			vals[i] = T(math.Round((values[i] + offset) * scale))
 		}
 	} else {
 		for i := range values {
@@ -160,6 +168,9 @@ func DiscardValue(value proto.Value, baseType basetype.BaseType, scale, offset f
 	switch value.Type() {
 	case proto.TypeFloat64:
 		dv := Discard(value.Float64(), scale, offset)
+		if baseType != basetype.Float32 && baseType != basetype.Float64 {
+			dv = math.Round(dv) // integer types: nearest integer, float arithmetic may land just below it.
+		}
 		switch baseType {
 		case basetype.Sint8:
 			return proto.Int8(int8(dv))
@@ -216,6 +227,9 @@ func DiscardAny(value any, baseType basetype.BaseType, scale, offset float64) an
 		return DiscardValue(val, baseType, scale, offset).Any()
 	case float64: // a scaled value will always in float64 form.
 		dv := Discard(val, scale, offset)
+		if baseType != basetype.Float32 && baseType != basetype.Float64 {
+			dv = math.Round(dv) // integer types: nearest integer, float arithmetic may land just below it.
+		}
 		switch baseType {
 		case basetype.Sint8:
 			return int8(dv)
